@@ -87,6 +87,41 @@ def random_histories(ctx, what: str, cmds: set, n_quick: int = 16, n_thorough: i
     ctx.set("random_history_commands", len(mine))
 
 
+def edit_loop(ctx, what: str, kinds: set, n_quick: int = 24, n_thorough: int = 400) -> None:
+    """`zorg edit` sessions with a scripted user (harness/bus.py): the real-store statements of kind `kinds`, evaluated after
+    every process that ended normally, are verdicts; conformance of the recorded effect sequence to Bus.tla is reported as
+    SPEC-DRIFT only (the modelled queue discipline is a means, not a listed property)."""
+    from .. import bus
+    r = tlc.run_tlc("MC_Bus", cfg="MC_Bus.cfg", coverage=True)
+    if not r.ok:
+        ctx.machinery(f"TLC on MC_Bus.cfg: violated={r.violated} error={r.error}\n" + "\n".join(r.output.splitlines()[-30:]))
+    if r.never_taken():
+        ctx.machinery(f"TLC on MC_Bus.cfg: actions never taken: {r.never_taken()}")
+    ctx.tlc_stats(r, "MC_Bus.cfg: message bus / edit loop, 2 pages, 3 sessions, 2 processes")
+    recs, verdict = bus.run(n_quick if ctx.quick else n_thorough, ctx.seed)
+    drift = 0
+    for rec in recs:
+        ctx.add("evaluations", sum(1 for e in rec["trace"] if e[0] == "exit"))
+        ctx.add("edit_sessions", sum(1 for e in rec["trace"] if e[0] == "vim"))
+        for kind, detail in rec["problems"]:
+            if kind == "setup":
+                ctx.machinery(f"edit-loop setup failed: {detail}")
+            if kind in kinds:
+                ctx.violation(f"{what}: after `zorg edit` sessions (history {rec['id']}): {kind}: {str(detail)[:400]}",
+                              {"history": rec["id"], "script": rec["script"], "trace": rec["trace"], "problems": rec["problems"]})
+                break
+        if not verdict.get(rec["id"], False):
+            drift += 1
+            if drift <= 3:
+                at = bus.diagnose(rec)
+                print(f"SPEC-DRIFT: Bus.tla does not explain effect {at} of edit history {rec['id']}: "
+                      f"{rec['trace'][max(0, at - 3):at + 1]}")
+    if "__tlc__" in verdict:
+        print(f"SPEC-DRIFT: a Bus.tla invariant failed on a recorded run: {verdict['__tlc__']['violated']}")
+    ctx.add("traces_validated_against_impl", len(recs))
+    ctx.set("edit_loop", {"histories": len(recs), "accepted_by_Bus": len(recs) - drift, "spec_drift": drift})
+
+
 def finish(ctx, rule: str) -> None:
     sigs = ctx.coverage.pop("_sigs", set())
     ctx.set("distinct_nontrivial", len(sigs))
